@@ -77,3 +77,10 @@ Proof.
   apply N.eqb_eq in H1. apply N.eqb_eq in H2. auto.
 Qed.
 Print Assumptions C04_consts.
+
+(* the multicast_level override (stored where _begin put the node's level) has no influence on unicast routing *)
+Theorem C04_routing_ignores_multicast_level : forall c l to_node send_type,
+  logi_2_phys (mkConsts (c_addr c) (c_mask c) (c_mask_inv c) l (c_parent c) (c_ppipe c)) to_node send_type
+  = logi_2_phys c to_node send_type.
+Proof. intros. reflexivity. Qed.
+Print Assumptions C04_routing_ignores_multicast_level.
